@@ -1,0 +1,10 @@
+//go:build verif
+// +build verif
+
+// Contracts for the deductive verifier in /verif (govc). Comment-only: no executable code.
+package response
+
+//@ func TerminateWithError props C10
+//@   trusted "writes the error answer (apiserver responsewriters) and marks the request terminated; nothing is forwarded"
+//@   modifies terminated, lastterm
+//@   ensures terminated == old(terminated) + 1 && lastterm == errCode(err)
